@@ -108,7 +108,7 @@ func runParseTask(t *gen.Tools, sw *sweeper, r *ev.Run, prop, tier, mode string,
 		}
 	})
 	if err != nil {
-		ev.Inconsistent("%v", err)
+		driverFailed(r, prop, "parse", c, err)
 	}
 }
 
